@@ -8,6 +8,7 @@ package c07
 import (
 	stded "crypto/ed25519"
 	"fmt"
+	"strings"
 	"math/big"
 	"testing"
 	"time"
@@ -87,10 +88,64 @@ func sign(key int, s signed, ts time.Time) []byte {
 	return stded.Sign(stded.PrivateKey(lib.Key(key)), lib.CanonVoteBytes(s.chain, s.typ, s.height, s.round, s.id, ts))
 }
 
+// repeatedThroughDecoder lists one member of vs one to three more times (any positions) and passes the result through
+// the protobuf decoder, the only door such a set can come through.
+func repeatedThroughDecoder(t *rapid.T, vs lib.ValSet) (lib.ValSet, bool) {
+	n := len(vs.Keys)
+	j := rapid.IntRange(0, n-1).Draw(t, "rep.member")
+	k := rapid.IntRange(1, 3).Draw(t, "rep.times")
+	sum := new(big.Int)
+	for _, v := range vs.Set.Validators {
+		sum.Add(sum, big.NewInt(v.VotingPower))
+	}
+	sum.Add(sum, new(big.Int).Mul(big.NewInt(vs.Set.Validators[j].VotingPower), big.NewInt(int64(k))))
+	if sum.Cmp(big.NewInt(types.MaxTotalVotingPower)) > 0 {
+		return vs, false // the sum over the entries would leave the documented range: not this dimension
+	}
+	vals := make([]*types.Validator, 0, n+k)
+	keys := make([]int, 0, n+k)
+	for i, v := range vs.Set.Validators {
+		vals = append(vals, v.Copy())
+		keys = append(keys, vs.Keys[i])
+	}
+	for ; k > 0; k-- {
+		at := rapid.IntRange(0, len(vals)).Draw(t, "rep.at")
+		vals = append(vals[:at], append([]*types.Validator{vs.Set.Validators[j].Copy()}, vals[at:]...)...)
+		keys = append(keys[:at], append([]int{vs.Keys[j]}, keys[at:]...)...)
+	}
+	raw := &types.ValidatorSet{Validators: vals, Proposer: vals[0].Copy()}
+	vp, err := raw.ToProto()
+	if err != nil {
+		return vs, false
+	}
+	bz, err := vp.Marshal()
+	if err != nil {
+		return vs, false
+	}
+	var back tmproto.ValidatorSet
+	if err := back.Unmarshal(bz); err != nil {
+		return vs, false
+	}
+	out, err := types.ValidatorSetFromProto(&back)
+	if err != nil {
+		return vs, false
+	}
+	return lib.ValSet{Set: out, Keys: keys}, true
+}
+
 // genScenario builds a validator set and a commit whose slots are drawn independently from slotKinds.
 // lean: probability weight towards all-good commits near the threshold.
 func genScenario(t *rapid.T, maxN int) scenario {
 	vs, prof := lib.GenValSet(t, 1, maxN, "vals")
+	if rapid.IntRange(0, 7).Draw(t, "repeatMember") == 0 {
+		// a validator set as it may come off the wire: one member listed more than once (NewValidatorSet refuses
+		// that; whether the decoder does is up to the code under test - if it refuses, the clean set is used)
+		if dup, ok := repeatedThroughDecoder(t, vs); ok {
+			vs, prof = dup, prof+"+repeated-member"
+		} else {
+			prof += "+repeated-member-refused-by-decoder"
+		}
+	}
 	n := len(vs.Keys)
 	sc := scenario{vs: vs, profile: prof}
 	sc.chain = rapid.SampledFrom(chains).Draw(t, "chain")
@@ -319,6 +374,9 @@ func viaWire(t *rapid.T, vals *types.ValidatorSet, label string) (*types.Validat
 func warmUp(t *rapid.T, sc scenario) []string {
 	n := len(sc.vs.Keys)
 	var done []string
+	if strings.HasSuffix(sc.profile, "+repeated-member") {
+		return nil // "genuine commit of all validators" has no meaning for a set that lists a member twice
+	}
 	for _, ctx := range []string{"other-block", "nil", "round+1", "height+1", "height-1", "chain-x"} {
 		if !rapid.Bool().Draw(t, "warm."+ctx) {
 			continue
@@ -410,7 +468,13 @@ func noPanic(f func() error) (err error) {
 // refTally: byIndex => validator = vals[idx] (full and light variants); else lookup by address (trusting variant).
 func refTally(vals *types.ValidatorSet, chain string, c *types.Commit, byIndex bool) refResult {
 	r := refResult{tally: new(big.Int), total: new(big.Int), allValid: true}
+	members := map[string]bool{}
 	for _, v := range vals.Validators {
+		if members[string(v.Address)] {
+			r.allValid = false // a malformed set: soundness only, acceptance is never demanded
+			continue           // a member listed again is still one member
+		}
+		members[string(v.Address)] = true
 		r.total.Add(r.total, big.NewInt(v.VotingPower))
 	}
 	seen := map[string]bool{}
@@ -619,8 +683,10 @@ func TestTrusting(t *testing.T) {
 		case "subset", "overlap", "tiny":
 			var keys []int
 			var powers []int64
+			kept := map[int]bool{}
 			for i := 0; i < n; i++ {
-				if rapid.Bool().Draw(t, "keep") {
+				if rapid.Bool().Draw(t, "keep") && !kept[sc.vs.Keys[i]] {
+					kept[sc.vs.Keys[i]] = true
 					keys = append(keys, sc.vs.Keys[i])
 					p := sc.vs.Set.Validators[i].VotingPower
 					if tkind == "overlap" && rapid.Bool().Draw(t, "repower") {
